@@ -7,7 +7,9 @@
 (* Conversions never change the tensor; what they may change is             *)
 (*   rep    the representation: "ns"/"na" nested frame with Series / array   *)
 (*          cells, "np3" 3-d array, "mi" multi-index frame, "long" long      *)
-(*          table, "t2" 2-d table (univariate panels only)                   *)
+(*          table, "t2" 2-d table (univariate panels only), "np3n" a 3-d     *)
+(*          array whose owner kept the variable names and hands them to the   *)
+(*          next conversion as column_names                                  *)
 (*   order  the order in which the original variables appear                 *)
 (*   names  the variable names carried (ranks: the name with rank r sorts    *)
 (*          before rank r+1; default names var_0, var_1, ... have ranks      *)
@@ -16,17 +18,19 @@
 (***************************************************************************)
 EXTENDS Integers, Sequences, FiniteSets, TLC, SequencesExt
 
-Carries == {"ns", "na", "mi", "long"}
+Carries == {"ns", "na", "mi", "long", "np3n"}
 Edges == { <<"ns", "np3">>, <<"na", "np3">>, <<"np3", "ns">>, <<"np3", "na">>,
            <<"ns", "mi">>, <<"na", "mi">>, <<"mi", "ns">>, <<"mi", "np3">>, <<"np3", "mi">>,
            <<"ns", "long">>, <<"na", "long">>, <<"long", "ns">>,
-           <<"ns", "t2">>, <<"t2", "ns">>, <<"np3", "t2">> }
+           <<"ns", "t2">>, <<"t2", "ns">>, <<"np3", "t2">>,
+           <<"ns", "np3n">>, <<"na", "np3n">>, <<"mi", "np3n">>, <<"np3n", "ns">>, <<"np3n", "na">>, <<"np3n", "mi">> }
 DefaultNames(k) == [j \in 1..k |-> 100 + j]
 \* permutation that sorts the variables by their identifier (rank)
 SortPerm(names) == SetToSortSeq(DOMAIN names, LAMBDA a, b : names[a] < names[b])
 Step(v, to) ==
     LET k == Len(v.order) IN
-    CASE to \in {"np3", "t2"} -> [rep |-> to, order |-> v.order, names |-> << >>]
+    CASE to = "np3n" -> [rep |-> to, order |-> v.order, names |-> v.names]      \* the names travel next to the array
+      [] to \in {"np3", "t2"} -> [rep |-> to, order |-> v.order, names |-> << >>]
       [] v.rep \in {"np3", "t2"} -> [rep |-> to, order |-> v.order, names |-> DefaultNames(k)]   \* fresh default names
       [] v.rep = "long" ->         \* the long table orders variables by identifier; names are not restored
            LET p == SortPerm(v.names) IN
